@@ -260,6 +260,79 @@ SUGAR = [
 ]
 
 
+SUGAR_ACT = ['S: d+[c];', 'S: d*[c] z;', 'S: d+;', 'S: d* z;', 'S: d? z;',
+             'S: x=d+[c] y=d?;', 'S: (d c)* d;']
+
+
+def doc_value(n, term_action):
+    """documented meaning of the built-in actions, from the parse tree; the
+    user's terminal action supplies the element values (falsy ones too)"""
+    if n.is_term():
+        return term_action.get(n.symbol.name, lambda v: v)(n.value)
+    kids = [doc_value(c, term_action) for c in n]
+    an = n.symbol.action_name
+    if an in ("collect", "collect_sep"):
+        return [kids[0]] if len(kids) == 1 else list(kids[0]) + [kids[-1]]
+    if an == "optional":
+        return kids[0] if kids else None
+    if an == "obj":
+        attrs = {}
+        for a in n.production.assignments.values():
+            attrs[a.name] = kids[a.index] if a.op == "=" else bool(kids[a.index])
+        return ("OBJ", n.symbol.name, tuple(sorted(
+            (k, norm(v)) for k, v in attrs.items())))
+    return kids[0] if len(kids) == 1 else kids
+
+
+def sugar_values_part(mon, judge, st):
+    """built-in actions with user terminal actions that return falsy values
+    (0): every route against the documented flat list"""
+    terms = 'terminals\nd: /[0-9]/;\nc: ",";\nz: "z";\n'
+    inputs = spaces.strings("01,z", 5)
+    tact = {"d": int}
+    for body in SUGAR_ACT:
+        used = "".join(t for t in "dcz" if t in body.replace("S:", ""))
+        text = body + "\nterminals\n" + "".join(
+            {"d": "d: /[0-9]/;\n", "c": 'c: ",";\n', "z": 'z: "z";\n'}[t]
+            for t in used)
+        acts = lambda: {"d": lambda _, v: int(v)}     # noqa: E731
+        try:
+            p1 = build("lr", grammar_from_string(text), mon, tag=(body, "v1"),
+                       ws="", actions=acts())
+            p2 = build("lr", grammar_from_string(text), mon, tag=(body, "v2"),
+                       ws="", actions=acts(), build_tree=True)
+            p3 = build("glr", grammar_from_string(text), mon, tag=(body, "v3"),
+                       ws="", actions=acts())
+        except (Exception, BudgetExceeded):     # noqa: BLE001
+            continue
+        for s in inputs:
+            o2 = parse(p2, s, mon)
+            if o2.kind != "ok":
+                continue
+            want = norm(doc_value(o2.value, tact))
+            st["evaluations"] += 1
+            st["nontrivial"] += 1
+            got = {"on-the-fly": parse(p1, s, mon),
+                   "call_actions(tree)": None, "glr": None}
+            res = {"on-the-fly": norm(got["on-the-fly"].value)
+                   if got["on-the-fly"].kind == "ok" else got["on-the-fly"].kind,
+                   "call_actions(tree)": norm(p2.call_actions(o2.value))}
+            o3 = parse(p3, s, mon)
+            if o3.kind == "ok":
+                fv = ForestView(o3.value.result)
+                if not fv.cyclic and fv.count() == 1:
+                    res["glr"] = norm(p3.call_actions(o3.value[0]))
+            bad = {k: str(v) for k, v in res.items() if v != want}
+            if bad:
+                judge.deviation("ACTIONS", "sugar-values", text, s,
+                                "built-in actions do not return the documented "
+                                "flat list / value", {"want": str(want),
+                                                      "got": bad},
+                                {"grammar": text, "parser": "lr", "input": s,
+                                 "options": {"ws": ""},
+                                 "actions": "d -> int(value)"})
+
+
 def sugar_unit():
     """repetition sugar with the built-in actions: routes agree and the
     documented values come out"""
@@ -309,11 +382,13 @@ def sugar_unit():
                                 {"problems": probs[:4]},
                                 {"grammar": text, "parser": "lr", "input": s,
                                  "options": {"ws": ""}})
+    sugar_values_part(mon, judge, st)
     r = judge.result()
     r.update(st)
     r.update(states=len(mon.states), transitions=mon.transitions,
              traces=mon.traces,
-             samples=[{"family": "repetition sugar", "grammars": len(SUGAR)}])
+             samples=[{"family": "repetition sugar", "grammars": len(SUGAR)
+                       + len(SUGAR_ACT)}])
     return r
 
 
